@@ -6,6 +6,7 @@ use std::env;
 use std::fs;
 
 mod client;
+mod sinks;
 mod writer;
 
 fn main() {
@@ -45,6 +46,7 @@ fn main() {
         let out = match kind {
             "writer" => writer::replay(&sc),
             "client" => client::replay(&sc),
+            "sink" => sinks::replay(&sc),
             _ => json!({"error": format!("unknown scenario kind {}", kind)}),
         };
         outs.push(out);
